@@ -95,6 +95,36 @@ theorem C07_model_verdict_ok (busy : List Nat) (c0 : Cfg) (hops : List HOp)
 
 example : ∀ a ∈ (⟨[1, 2], false⟩ : Cfg).addrs, ([3] : List Nat).contains a = false := by decide
 
+/-- **Hand-over is per address (and per kind of socket).**  A listen step that succeeds concerns one socket `x` — the TCP
+listener (`2a`) or the packet conn (`2a+1`) of one address: the new server for `x` gets a descriptor of the socket of `x`
+(when the old instance holds one, the very same socket) or opens its own; the descriptors, the socket identity and the
+ownership of every OTHER socket are untouched, and so is the old instance.  Together with `C07_descriptors_accounted` (every
+descriptor of socket `x` belongs to the listener for `x` of the current or of the starting instance, in every state of every
+schedule): nothing is ever handed over across addresses or kinds. -/
+theorem C07_handover_per_address (m : M) (x : Nat) (todo : List Nat) (hp : m.phase = .listening (x :: todo))
+    (hok : (step m .listen).phase = .listening todo) :
+    (∀ y, y ≠ x → (step m .listen).fds y = m.fds y ∧ (step m .listen).sock y = m.sock y ∧
+        (step m .listen).new.holds y = m.new.holds y) ∧
+    (step m .listen).new.holds x = true ∧ (step m .listen).cur = m.cur ∧
+    (m.cur.holds x = true → (step m .listen).sock x = m.sock x) :=
+  listen_per_address hp hok
+
+/-- a state in which a listen step takes over the old TCP listener of address 1 while a packet conn of address 2 is next -/
+example : (step (run (M.init [] [2, 5]) [.begin 2 ⟨[2, 5], false⟩, .setup]) .listen).phase = .listening [5] := by decide
+
+/-- **Model and judge agree on the mixed stream** (`c07.mixed`: servers with a TCP listener only, a packet conn only, or
+both, in any order): for every start valid for the environment and EVERY sequence of reloads, every observed socket has exactly
+one descriptor and is answered by the new generation when the new configuration names it, is closed otherwise, and nothing
+changes when the reload fails. -/
+theorem C07_mixed_model_verdict_ok (busy codes : List Nat) (c0 : Cfg) (cs : List Cfg)
+    (hfree : ∀ a ∈ c0.addrs, busy.contains a = false) :
+    mixedVerdict busy codes c0 cs (mixedRun busy codes c0 cs) = "ok" :=
+  mixed_verdict cs hfree
+
+/-- the mixed judge rejects a socket answered by the server of another address -/
+example : mixedStepLaw [18, 19] [2, 5] [(1, "1"), (1, "1")] (mixedCfg [⟨.t, 1⟩, ⟨.u, 2⟩] false) 2
+    { res := "ok", cells := [(2, "2:1+2:2"), (1, "2")], mis := true } = some "misrouted" := by decide
+
 /-! ### the judges are not vacuous (tests of the executable predicates on hand-made observations) -/
 
 /-- a reload that closes and rebinds the socket is rejected, -/
